@@ -169,7 +169,8 @@ def case(draw):
                 [None, None, {'hashes': ['SHA1']},
                  {'hashes': ['BLAKE2B', 'SHA512']}, {'hashes': ['MD5']},
                  {'profile': 'ebuild'}, {'profile': 'old-ebuild'},
-                 {'sort': True, 'compress_watermark': 0}]))}
+                 {'sort': True, 'compress_watermark': 0},
+                 {'max_jobs': 1}, {'max_jobs': 2}]))}
 
 
 def strat(tier):
@@ -192,11 +193,19 @@ def ancestors_of(path):
     return [''] + ['/'.join(parts[:i]) for i in range(1, len(parts) + 1)]
 
 
+def keep_going(err):
+    """Failure handler that reports failure and goes on."""
+    return False
+
+
 def api_calls(desc):
     x = desc['x']
     calls = []
     for p in ancestors_of(x):
         calls.append(('assert_directory_verifies', (p,)))
+    # keep-going mode: a broken link is still a failure
+    calls.append(('assert_directory_verifies',
+                  (layout.dirname(x), keep_going)))
     # ... also when told that nothing older than the far future changed
     calls.append(('assert_directory_verifies',
                   ('', gem.throw, 4_000_000_000)))
@@ -312,6 +321,9 @@ def run_case(desc):
                 continue
             if not desc['changed']:
                 continue
+            if (oc.kind == 'return' and oc.value is False
+                    and len(args) >= 2 and args[1] is keep_going):
+                continue        # keep-going: failure reported by the result
             if oc.kind == 'return':
                 val = oc.value
                 if name == 'find_path_entry':
